@@ -93,3 +93,38 @@ R.contract(
     modifies=["ANY.g_status", "ANY.g_handler_calls", "ANY.g_interrupted"],
     note="with exception catching enabled nothing escapes and the status is in range",
 ).defaults = {"input_stream": None, "output_stream": None, "error_stream": None}
+
+
+# ---- Command._do_handle, variant "once": the handler runs exactly once unless a pre-handle listener handled the command
+M_ED = "clikit.api.event.event_dispatcher"
+M_CFG = "clikit.api.config.config"
+R.shape("Event", _propagation_stopped="bool")
+R.shape("PreHandleEvent", base="Event", _args="ref Args?", _io="ref IO", _command="ref Command", _handled="bool",
+        _status_code="int")
+R.shape("EventDispatcher", g_has_pre_handle="bool")
+R.shape("Command", _dispatcher="ref EventDispatcher?", g_listener_handled="bool")
+R.contract(M_ED + ":EventDispatcher.has_listeners", params={"event_name": "str?"}, returns="bool",
+           ensures=["result == self.g_has_pre_handle"], modifies=[], assumed=True,
+           note="whether listeners are registered (the registry itself is C12)").defaults = {"event_name": None}
+R.contract(M_ED + ":EventDispatcher.dispatch", params={"event_name": "str", "event": "ref PreHandleEvent"},
+           returns="ref PreHandleEvent",
+           ensures=["event._command.g_listener_handled == event._handled", "result is event"],
+           raises={"Exception": "True", "KeyboardInterrupt": "True"},
+           modifies=["event._handled", "event._status_code", "event._propagation_stopped", "event._command.g_listener_handled"], assumed=True,
+           note="pre-handle listeners are arbitrary: they may mark the event handled, set a status, stop the propagation "
+                "or raise; they do not invoke command handlers (ghost g_listener_handled of the command: what they left in the event)")
+R.contract(M_CFG + ":Config.handler", params={}, returns="ref object", modifies=[], assumed=True).is_property = True
+R.contract(M_CFG + ":Config.handler_method", params={}, returns="str", modifies=[], assumed=True).is_property = True
+TAKEN = "(self._dispatcher is not None and self._dispatcher.g_has_pre_handle and self.g_listener_handled)"
+R.contract(
+    M_CMD + ":Command._do_handle", variant="once",
+    params={"args": "ref Args?", "io": "ref IO"},
+    returns="any",
+    ensures=["self.g_handler_calls == old(self.g_handler_calls) + (0 if %s else 1)" % TAKEN],
+    raises={"Exception": "True", "KeyboardInterrupt": "True"},
+    ensures_on_raise={"Exception": ["self.g_handler_calls <= old(self.g_handler_calls) + 1"],
+                      "KeyboardInterrupt": ["self.g_handler_calls <= old(self.g_handler_calls) + 1"]},
+    modifies=["self.g_handler_calls", "self.g_status", "self.g_listener_handled"],
+    note="the handler is an opaque callable that counts its invocations in ghost g_handler_calls",
+)
+DO_HANDLE_ONCE = {"qual": M_CMD + ":Command._do_handle", "tag": "once"}
